@@ -17,6 +17,7 @@ import (
 	governance "github.com/oasisprotocol/oasis-core/go/governance/api"
 	registry "github.com/oasisprotocol/oasis-core/go/registry/api"
 	staking "github.com/oasisprotocol/oasis-core/go/staking/api"
+	"github.com/oasisprotocol/oasis-core/go/storage/mkvs"
 	upgrade "github.com/oasisprotocol/oasis-core/go/upgrade/api"
 )
 
@@ -136,7 +137,19 @@ type TxView interface {
 	NextNonce(pk signature.PublicKey) uint64 // committed nonce + number of pending transactions
 	ActiveProposals() []uint64
 	NodeForRefresh(sel int) (*NodeKeys, uint64) // node to (re-)register and its new expiration
+	// Tree is the committed state tree the view reads from (for extension transaction kinds).
+	Tree() mkvs.ImmutableKeyValueTree
 }
+
+// TxBuilder builds the transaction of an extension kind. It may return a different signer than
+// the default (op.From); returning a nil transaction skips the operation.
+type TxBuilder func(w *World, op TxOp, v TxView, defaultSigner signature.Signer, fee *transaction.Fee) (*transaction.Transaction, signature.Signer, error)
+
+var extraTxKinds = map[string]TxBuilder{}
+
+// RegisterTxKind registers an extension transaction kind (used by property-specific workloads).
+// The builder must use v.NextNonce(signer.Public()) (+ op.NonceOff) as the nonce.
+func RegisterTxKind(kind string, b TxBuilder) { extraTxKinds[kind] = b }
 
 // BuildTx resolves a symbolic transaction.
 func (w *World) BuildTx(op TxOp, v TxView, seq int) (*BuiltTx, error) {
@@ -235,7 +248,19 @@ func (w *World) BuildTx(op TxOp, v TxView, seq int) (*BuiltTx, error) {
 	case "malformed":
 		tx = transaction.NewTransaction(nonce, fee, staking.MethodTransfer, cbor.RawMessage{0x83, 0x01, 0x02, 0x03})
 	default:
-		return nil, fmt.Errorf("unknown tx kind %q", op.Kind)
+		b, ok := extraTxKinds[op.Kind]
+		if !ok {
+			return nil, fmt.Errorf("unknown tx kind %q", op.Kind)
+		}
+		var err error
+		tx, signer, err = b(w, op, v, signer, fee)
+		if err != nil {
+			return nil, err
+		}
+		if tx == nil {
+			return nil, nil
+		}
+		nonce = tx.Nonce
 	}
 	bt := &BuiltTx{Op: op, Signer: signer.Public(), Nonce: nonce, Fee: op.Fee, Gas: uint64(gas), Method: tx.Method}
 	st, err := transaction.Sign(signer, tx)
